@@ -24,6 +24,8 @@ def plan(tier, seed):
         for sh in range(4):
             lay.append(("LAY", "E/" + pid, sh, 4, tier))
     for name, prog, only in layout.focus_programs():
+        if name.startswith("format"):
+            continue  # comma-less scale factors: lexer L is not a FORMAT lexer ('1pe12.4' is printed '1P, E12.4')
         lay.append(("LAY", "F/" + name, 0, 1, tier))
     return scenarios.tasks(tier) + [("ADV", i) for i in range(len(grammar_stmts.ADVERSARIAL))] + lay
 
